@@ -121,6 +121,14 @@ def lten_getattr(interp, t: LTen, name):
         return "cpu" if name == "device" else U("dtype_of_values", V.DtypeS)
     if name == "clone":
         return m(lambda interp: LTen(t.shape, t.elem, fresh=True))
+    if name in ("new_zeros", "new_ones", "new_empty"):
+        def newz(interp, *size, **k):
+            sz = size[0] if len(size) == 1 and not isinstance(size[0], (int, z3.ArithRef)) else list(size)
+            val = ZERO if name != "new_ones" else ONE
+            if isinstance(sz, V.Shape):
+                return LTen(sz, lambda ix: val)
+            return LTen(V.Shape(list(sz)), lambda ix: val)
+        return m(newz)
     if name == "_is_view":
         return m(lambda interp: not t.owner)
     if name in ("detach", "contiguous"):
@@ -149,9 +157,30 @@ def lten_getattr(interp, t: LTen, name):
                 raise Unsupported("unsqueeze other than dim 0")
             return LTen(V.Shape([1] + t.shape.lead, t.shape.tail), lambda idx: t.elem(list(idx[1:])), storage=t.storage, fresh=t.fresh)
         return m(unsq)
+    if name in ("any", "all", "isfinite", "isnan", "abs", "bool", "count_nonzero", "nonzero", "sum", "max", "min", "norm", "item"):
+        # value-dependent predicates / reductions of a symbolic tensor: an arbitrary (uninterpreted) result
+        def pred(interp, *a, **k):
+            return LPred(cx.fresh_bool(f"tensor_{name}"))
+        return m(pred)
     if name == "grad":
         raise Unsupported(".grad of a computed tensor")
     return MISSING
+
+
+class LPred:
+    """result of a value-dependent predicate / reduction on a layout tensor (all(), any(), ==, allclose, ...): only its
+    truth value exists, and it is arbitrary."""
+
+    def __init__(self, b):
+        self.b = b
+
+    def sym_truth(self, interp):
+        return self.b
+
+    def sym_getattr(self, interp, name):
+        if name in ("any", "all", "item", "bool"):
+            return V.SymMethod(lambda interp, *a, **k: self)
+        return MISSING
 
 
 def l_reshape(interp, t: LTen, shp, opname="reshape"):
@@ -294,6 +323,16 @@ def l_zeros_like(interp, x):
 def l_ones_like(interp, x):
     r = _like(interp, x, ONE)
     return r if r is not None else _orig_ones_like(interp, x)
+
+
+@prim("torch.allclose", "torch.equal", "torch.isclose")
+def l_allclose(interp, a, b, *x, **k):
+    return LPred(interp.cx.fresh_bool("tensors_close"))
+
+
+@prim("torch.count_nonzero", "torch.any", "torch.all")
+def l_countnz(interp, a, *x, **k):
+    return LPred(interp.cx.fresh_bool("tensor_pred"))
 
 
 @prim("torch.empty")
